@@ -1,16 +1,16 @@
 (* C15 - faults while rewriting never leave a half-written file or a dangling external.  Property theorems about
    Model/Faults.v: the write phase of pytest_sessionfinish as a sequential program of side-effecting steps with one
    injected fault (interruption before a step, or failure of the step) at an ARBITRARY step, for arbitrary numbers of
-   files and externals.  The two *_refuted theorems show what does NOT hold: the write itself is not atomic (F-19,
-   recorded), and garbage from the formatter combined with a second transient formatter failure gets written. *)
+   files and externals.  Since the repair of F-19 the new content is written into a temporary file that replaces the test
+   file atomically, so no test file is ever truncated.  The *_refuted theorem shows what does NOT hold: garbage from the
+   formatter combined with a second transient formatter failure gets written. *)
 From Coq Require Import List ZArith NArith Bool Arith.
 Import ListNotations.
 From V Require Import Model.Faults Proofs.FaultsProofs.
 
 Theorem C15_no_torn_file :
   forall (flt : option (nat * fkind)) (c : config) (news olds : list nat) (g : nat),
-  In (g, Trunc) (disk (final (write_phase flt c (init c news olds)))) ->
-  exists h : halt, halted (write_phase flt c (init c news olds)) = Some h /\ write_halt g h.
+  ~ In (g, Trunc) (disk (final (write_phase flt c (init c news olds)))).
 Proof. exact no_torn_file. Qed.
 
 Theorem C15_no_dangling_external :
@@ -70,16 +70,18 @@ Theorem C15_format_failure_degrades :
   lookup (f_id f) (disk (final (write_phase flt c (init c news olds)))) = Some (New t) /\ t <> Garb).
 Proof. exact format_failure_degrades. Qed.
 
-(* F-19 (recorded finding): an interruption or failure between open(.., "bw") and write() leaves the file empty *)
-Theorem C15_write_fault_refuted :
-  exists (flt : option (nat * fkind)) (c : config), In (0, Trunc) (disk (final (write_phase flt c (init c [] [])))).
-Proof. exact write_fault_refuted. Qed.
+Theorem C15_tmp_only_after_interruption :
+  forall (flt : option (nat * fkind)) (c : config) (news olds : list nat),
+  match halted (write_phase flt c (init c news olds)) with
+  | Some (HCrash _) => True
+  | _ => tmp (final (write_phase flt c (init c news olds))) = []
+  end.
+Proof. exact tmp_only_after_interruption. Qed.
 
 (* the premise of C15_no_garbage_written is needed *)
 Theorem C15_garbage_double_fault_refuted :
   exists (flt : option (nat * fkind)) (c : config), In (0, New Garb) (disk (final (write_phase flt c (init c [] [])))).
 Proof. exact garbage_double_fault_refuted. Qed.
-
 
 Print Assumptions C15_no_torn_file.
 Print Assumptions C15_no_dangling_external.
@@ -89,5 +91,5 @@ Print Assumptions C15_no_garbage_written.
 Print Assumptions C15_completed_all_new.
 Print Assumptions C15_format_failure_counted.
 Print Assumptions C15_format_failure_degrades.
-Print Assumptions C15_write_fault_refuted.
+Print Assumptions C15_tmp_only_after_interruption.
 Print Assumptions C15_garbage_double_fault_refuted.
